@@ -457,6 +457,13 @@ func scenarioMachine(c *hlib.RunCtx) *hlib.Violation {
 			os.WriteFile(filepath.Join(m.loc, strays[t.Draw(len(strays))]), []byte(body), 0666)
 			s.Probe("stray-json-in-local")
 		}
+		// ... or in upload/, where the names of the weeks already sent are kept
+		if t.Bool(1, 8) {
+			strays := []string{"1.json", "2024-01-08_copy.json", "2024-01-08.json.json", "1999.json", "2023-02-29.json", "0 my notes.json", "2024-01-08 (1).json"}
+			os.MkdirAll(m.upl, 0777)
+			os.WriteFile(filepath.Join(m.upl, strays[t.Draw(len(strays))]), []byte(`{"mine":true}`), 0666)
+			s.Probe("stray-json-in-upload")
+		}
 		// config store moves on
 		if t.Bool(1, 3) {
 			m.cfgs = append(m.cfgs, mgen.GenConfig(m.t, fmt.Sprintf("v0.%d.0", len(m.cfgs)+1)))
